@@ -540,9 +540,11 @@ impl State {
                                 // an unprocessed disjunct
                                 PDFType::Disjunct(set) => {
                                     if set.is_empty() {
-                                        // No options to try: this is a
-                                        // check specification error.
-                                        unreachable!()
+                                        // No options to try: nothing
+                                        // matches such a disjunct.  It is
+                                        // handed to the work loop, which
+                                        // reports the mismatch.
+                                        return Ok(Some((obj, tc)))
                                     } else {
                                         // Take the first option, and mark
                                         // this disjunct in progress.
@@ -844,7 +846,15 @@ pub fn check_type(
         // A disjunct reaches this point when it was given by name or is
         // an alternative of another disjunct (only the top-level check is
         // normalized): its alternatives are tried by get_next_check.
-        if let PDFType::Disjunct(_) = c.typ() {
+        if let PDFType::Disjunct(set) = c.typ() {
+            if set.is_empty() {
+                // a disjunct without options matches nothing.
+                result = Some(o.place(TypeCheckError::ValueMismatch(
+                    Rc::clone(&o),
+                    String::from("A disjunct without options"),
+                )));
+                continue
+            }
             state.push_disjunct((Rc::clone(&o), Rc::new(TypeCheck::Rep(Rc::clone(&c)))));
             continue
         }
